@@ -46,6 +46,8 @@ NATURAL_TXN = [
     'min(description, 3) > 1', 'round(description) > 1', 'any(amount)', 'month == "1" and month > "1"',
     'amount > 50 and contains(5)', 'txn.nosuch == 1', 'date >= "2025-13-45"', 'orders[0].nosuch == 1', 'not (amount < "5")',
 ]
+LAZY_VALUE = ['(r.item for r in orders if r.amount == txn.amount)', '(r.nosuch for r in orders)', '(r.item + 1 for r in orders)',
+              '(x for x in amount)']
 NATURAL_VALUE = ['amount + "x"', 'split(description, " ", 99.5)', 'description + 1', 'field.nosuch', 'uppercase()', 'extract("(")',
                  'regex_replace(description, "(", "")', 'next(r.item for r in orders if r.amount < 0)', 'orders[9].item', 'trim(1, 2)']
 NATURAL_VIEW = ['total > "x"', 'category + 1 > 2', 'sum(payments) / "2" > 1', 'nosuch > 1', 'stddev(5) > 1', 'by("nosuchfield")',
@@ -128,6 +130,9 @@ def gen_case(rng, tier):
         elif site == 'field':
             expr = good_value if injected else bad
             r['fields'] = [['note', expr]]
+            if rng.random() < 0.3:
+                # a field whose value is a lazy generator (its body may fail only when something consumes it)
+                r['fields'].append(['lazy', rng.choice(LAZY_VALUE)])
             if not r['category']:
                 r['category'], r['subcategory'] = 'Misc', 'Other'
         elif site == 'tag':
@@ -228,9 +233,7 @@ def fails_alone(kind, expr, item, merchants=None):
     from tally import expr_parser as ep
     try:
         if kind == 'txn':
-            v = ep.evaluate_transaction(expr, _txn(item), data_sources=ROWS)
-            if hasattr(v, '__next__'):
-                list(v)
+            ep.evaluate_transaction(expr, _txn(item), data_sources=ROWS)   # a generator result is a result: the engine does not consume it
         else:
             ts = _mtx(item['transactions'])
             months = {t['date'].strftime('%Y-%m') for m in merchants for t in _mtx(m['transactions'])}
